@@ -223,7 +223,8 @@ def _claimants(idx, col):
                     or (t[0] == 'meth' and t[1] == 'argmin')]
             if mins:
                 arg = mins[0][2][0] if mins[0][0] == 'call' else mins[0][2]
-                if occ in set(subterms(arg)) and col in set(subterms(arg)):
+                if arg[0] == 'sub' and arg[2][0] == 'tuple' and len(arg[2][1]) == 2 and arg[2][1][0] == occ \
+                        and arg[2][1][1] == col:
                     return ('ok', '')
                 return ('bad', 'the closest occurrence is not searched among the distances of that candidate\'s own '
                         'occurrences in this column: %s' % show(arg)[:80])
